@@ -58,7 +58,8 @@ def run(ck):
     ck.rule = ('stencils: every (derivative 1-4, order 1-8, layout) the code accepts + seeded custom integer offset sets; '
                'matrices: sizes from the stencil span upwards, all bc kinds; a case is non-trivial when the stencil has >= 2 points '
                'and distinct when its (kind, derivative, order/offsets, layout, size, bc) tuple is new')
-    ck.check_props(required=['C18_stencil_exact_for_all_polynomials', 'C18_neumann_row_exact_for_all_polynomials', 'C18_periodic_wraps', 'C18_steps_count'])
+    ck.check_props(required=['C18_stencil_exact_for_all_polynomials', 'C18_neumann_row_exact_for_all_polynomials', 'C18_periodic_wraps', 'C18_steps_count',
+                             'C18_2d_matrix_applies_operator_along_each_axis', 'C18_3d_matrix_applies_operator_along_each_axis'])
 
     # ------------------------------------------------------------------ 1. stencil tables
     stencils = []   # (label, der, steps(list int), coeff(list float))
@@ -398,6 +399,7 @@ def run(ck):
     # ------------------------------------------------------------------ 4. dx scaling, n-D Kronecker sums, grid
     import scipy.sparse as sp
     nk = 0
+    nd_cases = []
     for der, order, st in combos[:: (1 if thorough else 3)]:
         for bc in ['periodic', 'dirichlet', 'neumann']:
             size = order + der + 2
@@ -440,12 +442,53 @@ def run(ck):
                         if abs(got - exp) > mag * F(1, 2 ** 48):
                             ok = False
                             break
+                # the same entries through the Coq entry functions fd2_entry / fd3_entry (kernel-evaluated below)
+                if ok and len(nd_cases) < (400 if thorough else 60):
+                    pairs = []
+                    idx = list(itertools.product(range(size), repeat=dim))
+                    for _ in range(24):
+                        p_ = rng.choice(idx)
+                        q_ = list(rng.choice(idx))
+                        if rng.random() < 0.7:      # mostly pairs that differ in at most one axis (the non-zero pattern)
+                            ax = rng.randrange(dim)
+                            q_ = [p_[a] if a != ax else q_[a] for a in range(dim)]
+                        r_, c_ = flat(p_), flat(tuple(q_))
+                        got = F(float(Dn[r_, c_]))
+                        mag = sum(abs(F(float(D1[p_[ax], q_[ax]]))) for ax in range(dim) if all(p_[a] == q_[a] for a in range(dim) if a != ax))
+                        pairs.append((r_, c_, got, mag * F(1, 2 ** 48)))
+                    nd_cases.append(((der, order, st, bc, dim, size), dim, size, [[F(float(x)) for x in row] for row in D1.tolist()], pairs))
                 nk += 1
                 ck.case(key=('kron', der, order, st, bc, dim), sample=None)
                 if not ok:
                     ck.violation('%d-D matrix is not the Kronecker sum of the 1-D matrix' % dim,
                                  {'der': der, 'order': order, 'st': st, 'bc': bc, 'size': size, 'dim': dim}, match={'kind': 'kron'})
     ck.cov['kron_cases'] = nk
+    if nd_cases:
+        from harness.props.c02 import qc, qcm
+        L = ['From Coq Require Import List ZArith QArith Qabs Qcanon.', 'From PySDC Require Import Model.Sweep Model.SweepExec Model.FDnd.',
+             'Import ListNotations.', 'Local Open Scope Qc_scope.',
+             'Definition okq (model got tol : Qc) : bool := Qle_bool (Qabs (this model - this got)%Q) (this tol).']
+        for k, (lab, dim, size, A, pairs) in enumerate(nd_cases):
+            L.append('Definition A%d := mat %s.' % (k, qcm(A)))
+            fn = 'fd2_entry' if dim == 2 else 'fd3_entry'
+            L.append("Eval vm_compute in map (fun '(r, c, got, tol) => okq (%s 0 1 Qcplus Qcmult %d%%nat A%d r c) got tol) %s."
+                     % (fn, size, k, coq_list(['(%d%%nat, %d%%nat, %s, %s)' % (r_, c_, qc(g), qc(t)) for r_, c_, g, t in pairs])))
+        rc, out = ck.coqc(ck.write_gen('Data_nd.v', '\n'.join(L) + '\n'), timeout=900)
+        if rc != 0:
+            ck.obligation('Data_nd.v evaluates', False, out[-1500:])
+            ck.violation('generated n-D entry table does not compile', {'log': out[-3000:]}, match={'kind': 'gen'}, no_input=True)
+            return
+        outs = eval_outputs(out)
+        nbad = 0
+        for (lab, dim, size, A, pairs), o in zip(nd_cases, outs):
+            res = parse_coq_value(o)
+            for (r_, c_, g, t), okv in zip(pairs, res):
+                ck.evaluations += 1
+                if not okv:
+                    nbad += 1
+                    ck.violation('%d-D matrix entry (%d, %d) differs from the Kronecker-sum entry function of the model: %s' % (dim, r_, c_, lab),
+                                 {'case': lab, 'row': r_, 'col': c_, 'entry': float(g)}, match={'kind': 'kron-entry', 'dim': dim})
+        ck.obligation('fd2_entry/fd3_entry = real n-D matrix entries on %d matrices' % len(nd_cases), nbad == 0)
     for bc in ['periodic', 'dirichlet', 'neumann', 'dirichlet-zero']:
         for _ in range(10):
             size = rng.randint(2, 40)
